@@ -4,7 +4,7 @@
    spec_case : what the implementation did is a true statement about the
                generated zone (Spec.v), whenever the records it was given
                are genuine records of that zone. *)
-From Sdns Require Export Common.Base Gen.C02 C02.Model C02.ModelNsec3 C02.ModelCut C02.ModelAuth C02.Spec.
+From Sdns Require Export Common.Base Gen.C02 C02.Model C02.ModelNsec3 C02.ModelCut C02.ModelAuth C02.ModelShared C02.Spec.
 Open Scope N_scope.
 
 (* zone as generated: names leaf first, case as generated *)
@@ -70,6 +70,9 @@ Inductive case :=
 | CaseAuthNsec (z : rzone) (signer : name) (recs : list nsec) (kept : list N) (probes : list aprobe)
 | CaseAuthNsec3 (z : rzone) (signer : name) (recs : list nsec3) (kept : list N) (tab : list (name * N))
                 (judged : bool) (probes : list aprobe)
+  (* shared negative-cache state through Cache.ServeDNS: zone, maximum TTL, history of client
+     exchanges (with what the downstream resolver answered) and clock advances *)
+| CaseShared (z : rzone) (maxttl : Z) (ops : list shop)
   (* subtree-cut cache: configured maximum TTL (s), history of record / clock advance / lookup *)
 | CaseCut (maxttl : Z) (ops : list cutop)
   (* zone the records were drawn from; signer handed to the code; records; positions kept by
@@ -212,8 +215,38 @@ Definition spec_aprobe (z : zone) (p : aprobe) : bool :=
   (negb (a_marked p) || ((a_err p =? 0) && negb (a_cd p) && (a_qclass p =? zone_class) && truth)) &&
   (negb (a_aggr p) || a_marked p).
 
+Definition optN_eqb (a b : option N) : bool :=
+  match a, b with None, None => true | Some x, Some y => x =? y | _, _ => false end.
+Fixpoint check_shared (maxttl : Z) (zone : rname) (st : shared) (now : Z) (ops : list shop) : bool :=
+  match ops with
+  | [] => true
+  | ShAdvance s :: t => check_shared maxttl zone st (now + s)%Z t
+  | ShExchange q qtype cd ecs ds synth :: t =>
+      let '(st', r) := exchange maxttl st now zone (canon q) qtype cd ecs ds in
+      optN_eqb r synth && check_shared maxttl zone st' now t
+  end.
+(* the specification on the history alone: a synthesized denial is a true statement about the zone,
+   is never given to a CD=1 or ECS request, and needs an earlier exchange that passed the admission
+   guard *)
+Fixpoint spec_shared (z : zone) (admitted : bool) (ops : list shop) : bool :=
+  match ops with
+  | [] => true
+  | ShAdvance _ :: t => spec_shared z admitted t
+  | ShExchange q qtype cd ecs ds synth :: t =>
+      let qe := canon q in
+      match synth with
+      | None => true
+      | Some rc => negb cd && negb ecs && admitted &&
+                   (if rc =? 3 then negb (exists_in_b z qe) else nodata_true_b z qe qtype)
+      end &&
+      spec_shared z (admitted || match ds, synth with
+                                 | DsNegative _ _ _ marked aggressive res_cd, None => admission_guard cd ecs marked aggressive res_cd
+                                 | _, _ => false end) t
+  end.
+
 Definition check_case (c : case) : bool :=
   match c with
+  | CaseShared z maxttl ops => check_shared maxttl (canon (rz_apex z)) shared_empty 0 ops
   | CaseAuthNsec z signer recs kept probes =>
       let cs := canon_recs recs in
       let sg := canon signer in
@@ -279,6 +312,9 @@ Definition spec_probe3 (z : zone) (exact_ok aggr_ok : bool) (p : probe3) : bool 
 
 Definition spec_case (c : case) : bool :=
   match c with
+  | CaseShared rz maxttl ops =>
+      let z := canon_zone rz in
+      if negb (zone_wf_b z) then true else spec_shared z false ops
   | CaseAuthNsec rz signer recs kept probes =>
       let z := canon_zone rz in
       let cs := canon_recs recs in
